@@ -426,13 +426,15 @@ class NotInterval(Exception):
     pass
 
 
-def interval_of(test: ast.expr, var: str) -> List[Interval]:
-    """Set of integers for which ``test`` is true, as a function of ``var`` only."""
+def interval_of(test: ast.expr, var: str, cev: Any = None) -> List[Interval]:
+    """Set of integers for which ``test`` is true, as a function of ``var`` only.  ``cev`` evaluates the
+    bounds (default: literal folding; callers pass a constant evaluator to follow named constants)."""
+    cev = cev or fold
     test = strip_cast(test)
     if isinstance(test, ast.UnaryOp) and isinstance(test.op, ast.Not):
-        return _compl(interval_of(test.operand, var))
+        return _compl(interval_of(test.operand, var, cev))
     if isinstance(test, ast.BoolOp):
-        parts = [interval_of(v, var) for v in test.values]
+        parts = [interval_of(v, var, cev) for v in test.values]
         if isinstance(test.op, ast.And):
             acc = [(-INF, INF)]
             for p in parts:
@@ -446,13 +448,13 @@ def interval_of(test: ast.expr, var: str) -> List[Interval]:
             a, b = strip_cast(a), strip_cast(b)
             if isinstance(a, ast.Name) and a.id == var:
                 try:
-                    c = fold(b)
+                    c = cev(b)
                 except ValueError:
                     raise NotInterval(ast.unparse(b))
                 iv = _cmp_iv(op, c, var_left=True)
             elif isinstance(b, ast.Name) and b.id == var:
                 try:
-                    c = fold(a)
+                    c = cev(a)
                 except ValueError:
                     raise NotInterval(ast.unparse(a))
                 iv = _cmp_iv(op, c, var_left=False)
@@ -485,7 +487,7 @@ def _cmp_iv(op: ast.cmpop, c: Any, var_left: bool) -> List[Interval]:
     raise NotInterval(type(op).__name__)
 
 
-def accepted_intervals(fn: ast.FunctionDef) -> Tuple[Optional[List[Interval]], str]:
+def accepted_intervals(fn: ast.FunctionDef, cev: Any = None) -> Tuple[Optional[List[Interval]], str]:
     """For a wrapper of the shape ``r = f(*a); if P(r): return r; raise E`` (or the
     guard-first form) return the set of r values that are *returned*; every other
     exit must raise.  Returns (None, reason) if the shape is not recognised."""
@@ -512,7 +514,7 @@ def accepted_intervals(fn: ast.FunctionDef) -> Tuple[Optional[List[Interval]], s
         for st in stmts:
             if isinstance(st, ast.If):
                 try:
-                    iv = interval_of(st.test, var)  # type: ignore[arg-type]
+                    iv = interval_of(st.test, var, cev)  # type: ignore[arg-type]
                 except NotInterval as ex:
                     ok, why = False, f"condition not an interval test: {ex}"
                     return True
